@@ -474,11 +474,13 @@ impl RandomProp for PairsLarge {
 
 impl RandomProp for Pairs {
     fn strategy(_env: &Env) -> BoxedStrategy<PairCase> {
-        (gen::ty13(), 1usize..13, prop_oneof![2 => Just(0u8), 1 => Just(1u8), 1 => Just(2u8)], any::<bool>(), 0u8..4)
-            .prop_flat_map(|(ty, shift, route, rowfail, nan)| {
+        (gen::ty13(), 1usize..13, prop_oneof![2 => Just(0u8), 1 => Just(1u8), 1 => Just(2u8)], any::<bool>(), 0u8..4, 0u8..16)
+            .prop_flat_map(|(ty, shift, route, rowfail, nan, big)| {
                 let other = ALL13[(ty.index13() + shift) % 13];
                 // one history in four draws from the profile in which X and Y may be NaN as well
                 let cfg = gen::GenCfg::new(if nan == 0 { gen::Profile::WithNan } else { gen::Profile::NonNan }, true, 3, 5);
+                // one history in sixteen carries parts of up to 400 points (block effects in the point writers / readers)
+                let cfg = if big == 0 { gen::GenCfg::new(gen::Profile::NonNan, true, 2, 400) } else { cfg };
                 let call = if rowfail && route == 0 {
                     prop_oneof![6 => Just(Call::Ok), 2 => Just(Call::Mismatch), 1 => Just(Call::RowMissingLast), 1 => Just(Call::RowMissingFirst), 1 => Just(Call::RowWrongType)].boxed()
                 } else {
